@@ -221,7 +221,8 @@ func (e *evidence) write(path string) error {
 			"real": []string{"lucene (parse.go, render.go)", "internal/lex", "pkg/lucene/reduce", "pkg/lucene/expr", "pkg/driver",
 				"fmt, strings, strconv, reflect, encoding/json, unicode (real standard library)", "Go runtime, garbage collector, race detector"},
 			"stubbed": []string{},
-			"harness": []string{"caller tasks", "user RenderFN callbacks (fault seam)", "seeded scheduler + inserted yields", "sync shim (only if the library imports sync)"},
+			"harness": []string{"caller tasks", "user RenderFN callbacks (fault seam)", "seeded scheduler + inserted yields", "sync / sync/atomic / time shims (only if the library imports them)",
+				"cooperative forms of the library's own go statements, channel operations and selects (only if it has any; goroutines and channels stay real)"},
 		},
 		"instrumentation": map[string]interface{}{
 			"statement_yields":         e.p.Instr.NumSites - e.p.Instr.ExitSites,
